@@ -163,6 +163,7 @@ type Engine struct {
 	fs                           []*fsEntry
 	joins                        map[string]joinPart
 	builders                     map[*any]*string
+	dirs                         map[string]bool
 	inHarness                    bool
 	clockBudget                  string
 	appendSpare                  int
@@ -178,7 +179,7 @@ func (e *Engine) resetPath(prefix []decision) {
 	e.prefix, e.decisions, e.pending, e.fresh, e.clockN, e.occ, e.Inputs = prefix, nil, nil, 0, 0, nil, nil
 	e.forkCount = 0
 	e.clockBudget, e.appendSpare, e.appendSpareChosen = "", 0, -1
-	e.fs, e.joins, e.builders = nil, map[string]joinPart{}, map[*any]*string{}
+	e.fs, e.joins, e.builders, e.dirs = nil, map[string]joinPart{}, map[*any]*string{}, map[string]bool{}
 	globals = map[*ssa.Global]Ptr{}
 	allocEpoch, epochCtr, frozenAt = map[*any]int{}, 0, -1
 	msgOf, tsOf = map[string]*msgProv{}, map[*any]TimeV{}
